@@ -211,6 +211,52 @@ def run(rep, tier, rng):
             if call(U.validate_cusip, x)[1] is True:
                 fail("validate_cusip:wrong-length-validates", "validate_cusip(%r) is True" % (x,), fn="validate_cusip", args=[x])
 
+    # ---------------- edges of the input space (property predicate on the implementation only; the model is about ASCII text) ----------------
+    #   an identifier with anything appended or prepended has the wrong length and never validates (line ends and blanks included: '$' in a
+    #   regular expression also matches before a trailing newline); a check character replaced by the same-valued decimal digit of another
+    #   script is a changed check character
+    FOREIGN = lambda d: [chr(base + int(d)) for base in (0xFF10, 0x0660, 0x06F0, 0x0966, 0x0E50, 0x1D7CE)]
+    PADS = ["\n", "\r\n", "\r", " ", "\t", "\x0b", "\x0c", "\u00a0", "\u2028", "\u3000", "\x00"]
+    good_ids = []
+    for b in sub(cusip_bases, 300):
+        w = ref_cusip(b)
+        if call(U.cusip_checksum, b) == ("ok", w):
+            good_ids.append(("validate_cusip", U.validate_cusip, b + w))
+    for b in sub([x for x in isin_bases if len(x) == 11], 300):
+        w = ref_isin(b)
+        if call(U.isin_checksum, b) == ("ok", w) and call(U.validate_isin, b + w) == ("ok", True):
+            good_ids.append(("validate_isin", U.validate_isin, b + w))
+    n_edge = 0
+    for name, fn, ident in good_ids:
+        for pad in PADS:
+            for x in (ident + pad, pad + ident):
+                n_edge += 1
+                if call(fn, x)[1] is True:
+                    fail("%s:wrong-length-validates" % name, "%s(%r) is True: a %d-character text validates" % (name, x, len(x)), fn=name, args=[x])
+        if ident[-1].isdigit():
+            for ch in FOREIGN(ident[-1]):
+                n_edge += 1
+                if call(fn, ident[:-1] + ch)[1] is True:
+                    fail("%s:foreign-digit-check-validates" % name, "%s(%r) is True although the check character was replaced by U+%04X" % (name, ident[:-1] + ch, ord(ch)), fn=name, args=[ident[:-1] + ch])
+    for b in sub(sedol_bases, 200):
+        w = ref_sedol(b)
+        for x in [b + w + p for p in PADS] + [b + ch for ch in FOREIGN(w)]:
+            n_edge += 1
+            out = call(U.sedol2isin, x)
+            if out[0] == "ok":
+                fail("sedol2isin:accepts-malformed", "sedol2isin(%r) -> %r: a malformed SEDOL is converted" % (x, out), fn="sedol2isin", args=[x, None], observed=out)
+    for b in sub(cusip_bases, 200):
+        w = ref_cusip(b)
+        if call(U.cusip_checksum, b) != ("ok", w) or not all(c in ALNUM + string.ascii_lowercase for c in b):
+            continue
+        for x in [b + w + p for p in PADS] + ([b + ch for ch in FOREIGN(w)] if w.isdigit() else []):
+            n_edge += 1
+            out = call(U.cusip2isin, x)
+            if out[0] == "ok":
+                fail("cusip2isin:accepts-malformed", "cusip2isin(%r) -> %r: a malformed CUSIP is converted" % (x, out), fn="cusip2isin", args=[x, None], observed=out)
+    rep.extra["edge_probes"] = n_edge
+    rep.count(("edge-probes", n_edge), nontrivial=True, kind="edge-probes")
+
     # ---------------- malformed stream (model vs implementation only) ----------------
     junk = string.printable[:95]
     n_mal = 20000 if thorough else 2000
